@@ -187,6 +187,9 @@ def run(ctx):
     te, rd = repo.mod(TE), repo.mod(RD)
     ctx.rule("R1", "frame builders: no value replaced by a constant chart under a condition on the bond vector; chart regions stay tiny")
     ctx.rule("R2", "translation invariance: coordinates are read only as differences or by inventoried origin-dependent consumers")
+    ctx.rule("R3", "pair selection is rotation invariant: the only coordinate-dependent factor of the pair list tests |r_i - r_j| (or its square) against the cutoff")
+    from .c19 import check_pair_predicate
+    check_pair_predicate(ctx, "R3")
 
     builders = [(te, "rotate_with_quaternion"), (rd, "GenerateRotationMatrix")]
     for m, q in builders:
